@@ -23,19 +23,20 @@ type Problem struct {
 func (p Problem) String() string { return fmt.Sprintf("[%s] %s: %s", p.Clause, p.Fn, p.Msg) }
 
 type Stats struct {
-	Functions       int
-	Blocks          int
-	Instrs          int
-	Phis            int
-	UsesChecked     int
-	RecoverRelaxed  int // uses in recover-rooted blocks that refer to entry-block values
-	UnreachableBlks int
-	TypeRules       int // typing rule applications
-	TypeSkippedGen  int // functions whose strict typing clauses were skipped (free type parameters)
-	IfSameTarget    int
-	StaleLocals     int
-	DuplicateEdges  int
-	InstrKinds      map[string]int
+	Functions                   int
+	Blocks                      int
+	Instrs                      int
+	Phis                        int
+	UsesChecked                 int
+	RecoverRelaxed              int // uses in recover-rooted blocks that refer to entry-block values
+	UnreachableBlks             int
+	TypeRules                   int // typing rule applications
+	TypeSkippedGen              int // functions whose strict typing clauses were skipped (free type parameters)
+	IfSameTarget                int
+	ReferrerMultiplicityDiffers int
+	StaleLocals                 int
+	DuplicateEdges              int
+	InstrKinds                  map[string]int
 }
 
 type checker struct {
@@ -393,8 +394,12 @@ func (c *checker) run() {
 						got++
 					}
 				}
-				if got != want {
-					c.errf("e", "block %d: %q uses %s %d times but is listed %d times in its referrers", i, instr.String(), name(v), want, got)
+				// ssa.go: Referrers "may contain duplicates if an instruction has a repeated
+				// operand": the relation is an inverse as a set; multiplicities are only counted
+				if got == 0 {
+					c.errf("e", "block %d: %q uses %s but is not listed in its referrers", i, instr.String(), name(v))
+				} else if got != want {
+					c.st.ReferrerMultiplicityDiffers++
 				}
 			}
 		}
